@@ -211,8 +211,8 @@ func runC21(x *simkit.Exec) {
 			}
 			if o.err != nil || o.shardErr != nil {
 				if feasible && (zones == 0 || !ssc.ZoneAwarenessDisabled) {
-					s.Violate("tenant-gets-its-shard", class+":error-on-realisable-shard", "%s tenant %s: shard size %d (%s), rf=%d, layout %s is realisable but lookup failed: GetN err=%v, sub-ring err=%v",
-						o.node, o.tenant, ss, how, rf, layoutString(eps), o.err, o.shardErr)
+					s.Violate("tenant-gets-its-shard", class+":error-on-realisable-shard", "%s tenant %s: shard size %d (%s), rf=%d, layout %s is realisable but lookup failed: GetN err=%v, sub-ring err=%v\nshuffle_sharding_config %s",
+						o.node, o.tenant, ss, how, rf, layoutString(eps), o.err, o.shardErr, cfgJSON(ssc))
 					return
 				}
 				s.Probe("c21.error_unrealisable_shard")
@@ -233,15 +233,15 @@ func runC21(x *simkit.Exec) {
 			}
 			if ssc.ZoneAwarenessDisabled {
 				if len(o.shard) != ss {
-					s.Violate("shard-size", class+":total", "%s tenant %s: shard size %d (%s) configured, zone awareness disabled, but the sub-ring has %d nodes %v",
-						o.node, o.tenant, ss, how, len(o.shard), addrSet(o.shard))
+					s.Violate("shard-size", class+":total", "%s tenant %s: shard size %d (%s) configured, zone awareness disabled, but the sub-ring has %d nodes %v\nshuffle_sharding_config %s",
+						o.node, o.tenant, ss, how, len(o.shard), addrSet(o.shard), cfgJSON(ssc))
 					return
 				}
 			} else {
 				for _, z := range zoneNamesUsed {
 					if cnt[z] != perZone {
-						s.Violate("shard-size", class+":per-zone", "%s tenant %s: shard size %d (%s) over %d zones = %d nodes per zone, but the sub-ring has %v (layout %s, sub-ring %v)",
-							o.node, o.tenant, ss, how, len(sizes), perZone, cnt, layoutString(eps), o.shard)
+						s.Violate("shard-size", class+":per-zone", "%s tenant %s: shard size %d (%s) over %d zones = %d nodes per zone, but the sub-ring has %v (layout %s, sub-ring %v)\nshuffle_sharding_config %s",
+							o.node, o.tenant, ss, how, len(sizes), perZone, cnt, layoutString(eps), addrSet(o.shard), cfgJSON(ssc))
 						return
 					}
 				}
